@@ -571,3 +571,535 @@ def resample_index_rule(ctx, rule="ROLE-one-index"):
     else:
         ck.fail("systematic method present", "missing")
     ck.done()
+
+
+# ====================================================================== SMC moves (C10, C12)
+PARTS = ("param", "particles")
+
+
+def pc_fields(ev, t):
+    info = ev.ctor_info(t)
+    if info is None or not info[0].endswith("ParticleCollection"):
+        return None
+    return {k: ev.ctor_field(t, k) for k in ("traces", "log_weights", "diagnostic_weights", "n_samples", "log_marginal_estimate")}
+
+
+def smc_ev(ctx):
+    return mk_ev(ctx, inline={SMC + "_create_particle_collection"}, depth=4)
+
+
+def pc_nonnull_axiom(x):
+    """Fields of an existing ParticleCollection are arrays, never None (dataclass defaults; every constructor path fills them)."""
+    if x[0] == "cmp" and x[1] in ("is", "is not") and is_const(x[3], None) and x[2][0] == "attr" and x[2][1] == PARTS:
+        return C(x[1] == "is not")
+    return None
+
+
+def smc_lin(ev):
+    return mk_lin(ev, extra=[pc_nonnull_axiom])
+
+
+def lanes_body(t):
+    return t[2] if (isinstance(t, tuple) and t and t[0] == "lanes") else None
+
+
+def lse(x):
+    return call(N("jax.scipy.special.logsumexp"), x)
+
+
+def particle_collection_helper(ctx, rule="ALG-smc"):
+    ev = mk_ev(ctx)
+    dotted = SMC + "_create_particle_collection"
+    s = summarize(ctx, ev, dotted)
+    lin = mk_lin(ev)
+    ck = Checker(ctx, ev, lin, rule, "smc._create_particle_collection", func_loc(ctx, dotted))
+    P = lambda n: ("param", n)
+    for asg, leaf in all_cases(s.ret):
+        f = pc_fields(ev, leaf)
+        if f is None:
+            ck.fail("returns a ParticleCollection", f"found {short(leaf, ev)}")
+            continue
+        ck.eq("traces forwarded", f["traces"], P("traces"))
+        ck.eq("log_weights forwarded", f["log_weights"], P("log_weights"))
+        ck.eq("n_samples forwarded", f["n_samples"], P("n_samples"))
+        est_none = dg_none = None
+        for c, v in asg.items():
+            r1, r2 = none_test(c, P("log_marginal_estimate")), none_test(c, P("diagnostic_weights"))
+            if r1 is not None:
+                est_none = (r1 == v)
+            elif r2 is not None:
+                dg_none = (r2 == v)
+            else:
+                raise AnalysisError(f"{dotted}: unrecognised condition {short(c, ev)}")
+        if est_none:
+            ck.lineq("default estimate = 0", f["log_marginal_estimate"], C(0))
+        else:
+            ck.eq("estimate forwarded", f["log_marginal_estimate"], P("log_marginal_estimate"))
+        if dg_none:
+            ck.lineq("default diagnostic weights = log-normalised weights", f["diagnostic_weights"], ("binop", "-", P("log_weights"), lse(P("log_weights"))))
+        else:
+            ck.eq("diagnostic weights forwarded", f["diagnostic_weights"], P("diagnostic_weights"))
+    ck.done()
+
+
+def vmap_axes_ok(ck, ev, rec, n_expected, axes_expected, what):
+    if rec["which"] != "genjax.pjax.modular_vmap":
+        ck.fail(what + ": particles vectorised with modular_vmap", rec["which"])
+    ax = ev.kwget(rec["opts"], "axis_size")
+    ck.eq(what + ": axis_size = number of particles", ax or NONE, n_expected)
+    ck.eq(what + ": in_axes", rec["in_axes"] or NONE, axes_expected)
+
+
+def smc_init_rule(ctx, rule="ALG-smc"):
+    ev = smc_ev(ctx)
+    dotted = SMC + "init"
+    s = summarize(ctx, ev, dotted)
+    lin = mk_lin(ev)
+    ck = Checker(ctx, ev, lin, rule, "smc.init", func_loc(ctx, dotted))
+    G, A, NS, CON, PG = (("param", n) for n in ("target_gf", "target_args", "n_samples", "constraints", "proposal_gf"))
+    saw = set()
+    for asg, leaf in all_cases(s.ret):
+        pol = None
+        for c, v in asg.items():
+            r = none_test(c, PG)
+            if r is None:
+                raise AnalysisError(f"smc.init: unrecognised condition {short(c, ev)}")
+            pol = (r == v)
+        saw.add(pol)
+        f = pc_fields(ev, leaf)
+        if f is None:
+            ck.fail("returns a ParticleCollection", f"found {short(leaf, ev, 200)}")
+            continue
+        tb, wb = lanes_body(f["traces"]), lanes_body(f["log_weights"])
+        if tb is None or wb is None or f["traces"][1] != f["log_weights"][1]:
+            ck.fail("traces and weights come from one vectorised importance-sampling call", f"found {short(f['log_weights'], ev, 200)}")
+            continue
+        rec = ev.vmaps[f["traces"][1]]
+        star = ("star", A)
+        if pol:
+            g = ("call", ("attr", G, "generate"), (CON, star), ())
+            ck.eq("[default proposal] trace = target.generate(constraints, *args)[0]", tb, ("idx", g, C(0)))
+            ck.lineq("[default proposal] log weight = the generate weight", wb, ("idx", g, C(1)))
+            vmap_axes_ok(ck, ev, rec, ("attr", NS, "value"), ("tuple", (NONE, NONE, NONE)), "default")
+        else:
+            ptr = ("call", ("attr", PG, "simulate"), (CON, star), ())
+            merged = ("idx", ("call", ("attr", G, "merge"), (CH(ptr), CON), ()), C(0))
+            g = ("call", ("attr", G, "generate"), (merged, star), ())
+            ck.eq("[custom proposal] trace = target.generate(merge(proposal choices, constraints)[0], *args)[0]", tb, ("idx", g, C(0)))
+            ck.lineq("[custom proposal] log weight = generate weight + proposal score (= −log q)", wb, ("binop", "+", ("idx", g, C(1)), SC(ptr)))
+            vmap_axes_ok(ck, ev, rec, ("attr", NS, "value"), ("tuple", (NONE, NONE, NONE, NONE)), "custom")
+        ns = lin.norm(f["n_samples"])
+        if ns not in (NS, call(N(CORE + "const"), ("attr", NS, "value"))):
+            ck.fail("particle count recorded", f"found {short(ns, ev)}")
+        ck.lineq("accumulated estimate starts at 0", f["log_marginal_estimate"], C(0))
+        ck.lineq("diagnostic weights = log-normalised weights", f["diagnostic_weights"], ("binop", "-", f["log_weights"], lse(f["log_weights"])))
+    if saw != {True, False}:
+        ck.fail("default and custom proposal paths", f"cases: {saw}")
+    ck.done()
+
+
+def targs(t):
+    """args tuple built from a per-particle argument: `a if isinstance(a, tuple) else (a,)`."""
+    return ("ifexp", call(N("builtins.isinstance"), t, N("builtins.tuple")), t, ("tuple", (t,)))
+
+
+def smc_extend_rule(ctx, rule="ALG-smc"):
+    ev = smc_ev(ctx)
+    dotted = SMC + "extend"
+    s = summarize(ctx, ev, dotted)
+    lin = smc_lin(ev)
+    ck = Checker(ctx, ev, lin, rule, "smc.extend", func_loc(ctx, dotted))
+    G, EA, CON, EP = (("param", n) for n in ("extended_target_gf", "extended_target_args", "constraints", "extension_proposal"))
+    f = pc_fields(ev, s.ret)
+    if f is None:
+        raise AnalysisError("smc.extend: result is not a ParticleCollection construction")
+    tb, wb = lanes_body(f["traces"]), lanes_body(f["log_weights"])
+    if tb is None or wb is None or f["traces"][1] != f["log_weights"][1]:
+        raise AnalysisError("smc.extend: vectorised extension not recognised")
+    vid = f["traces"][1]
+    rec = ev.vmaps[vid]
+    vmap_axes_ok(ck, ev, rec, ("attr", ("attr", PARTS, "n_samples"), "value"), ("tuple", (C(0), C(0), C(0))), "extend")
+    ck.eq("mapped arguments = (particles.traces, particles.log_weights, per-particle args)", ("tuple", rec["args"]),
+          ("tuple", (("attr", PARTS, "traces"), ("attr", PARTS, "log_weights"), EA)))
+    otr, ow, pa = (("lane", vid, a, C(0)) for a in (("attr", PARTS, "traces"), ("attr", PARTS, "log_weights"), EA))
+    star = ("star", targs(pa))
+    saw = set()
+    for (asg, tleaf), (_, wleaf) in zip(all_cases(tb), all_cases(wb)):
+        pol = None
+        for c, v in asg.items():
+            r = none_test(c, EP)
+            if r is not None:
+                pol = (r == v)
+        if pol is None:
+            continue
+        key = tuple(sorted((ts(c, ev), v) for c, v in asg.items() if none_test(c, EP) is None))
+        saw.add(pol)
+        tleaf, wleaf = lin.norm(tleaf), lin.norm(wleaf)
+        # resolve the isinstance split consistently in the expectation too
+        def ex(t):
+            from .util import resolve_deep
+            return lin.norm(resolve_deep(t, asg))
+        if pol:
+            g = ("call", ("attr", G, "generate"), (CON, star), ())
+            ck.eq("[no proposal] trace = target.generate(constraints, *args)[0]", tleaf, ex(("idx", g, C(0))))
+            ck.lineq("[no proposal] weight = old weight + generate weight", wleaf, ex(("binop", "+", ow, ("idx", g, C(1)))))
+        else:
+            etr = ("call", ("attr", EP, "simulate"), (CON, CH(otr), star), ())
+            merged = ("idx", ("call", ("attr", G, "merge"), (CON, CH(etr)), ()), C(0))
+            g = ("call", ("attr", G, "generate"), (merged, star), ())
+            ck.eq("[proposal] trace = target.generate(merge(constraints, extension choices)[0], *args)[0]", tleaf, ex(("idx", g, C(0))))
+            ck.lineq("[proposal] weight = old weight + generate weight + proposal score", wleaf,
+                     ex(("binop", "+", ("binop", "+", ow, ("idx", g, C(1))), SC(etr))))
+    if saw != {True, False}:
+        ck.fail("both extension paths analysed", f"cases: {saw}")
+    ck.eq("particle count forwarded", f["n_samples"], ("attr", PARTS, "n_samples"))
+    ck.eq("accumulated estimate forwarded", f["log_marginal_estimate"], ("attr", PARTS, "log_marginal_estimate"))
+    ck.done()
+
+
+def smc_change_rule(ctx, rule="ALG-smc"):
+    ev = smc_ev(ctx)
+    dotted = SMC + "change"
+    s = summarize(ctx, ev, dotted)
+    lin = smc_lin(ev)
+    ck = Checker(ctx, ev, lin, rule, "smc.change", func_loc(ctx, dotted))
+    G, A, CF = (("param", n) for n in ("new_target_gf", "new_target_args", "choice_fn"))
+    f = pc_fields(ev, s.ret)
+    if f is None:
+        raise AnalysisError("smc.change: result is not a ParticleCollection construction")
+    tb, wb = lanes_body(f["traces"]), lanes_body(f["log_weights"])
+    if tb is None or wb is None:
+        raise AnalysisError("smc.change: vectorised move not recognised")
+    vid = f["traces"][1]
+    rec = ev.vmaps[vid]
+    vmap_axes_ok(ck, ev, rec, ("attr", ("attr", PARTS, "n_samples"), "value"), ("tuple", (C(0), C(0))), "change")
+    otr, ow = (("lane", vid, a, C(0)) for a in (("attr", PARTS, "traces"), ("attr", PARTS, "log_weights")))
+    g = ("call", ("attr", G, "generate"), (("call", CF, (CH(otr),), ()), ("star", A)), ())
+    ck.eq("trace = new_target.generate(choice_fn(old choices), *args)[0]", tb, ("idx", g, C(0)))
+    ck.lineq("weight = old weight + generate weight", wb, ("binop", "+", ow, ("idx", g, C(1))))
+    ck.eq("particle count forwarded", f["n_samples"], ("attr", PARTS, "n_samples"))
+    ck.eq("accumulated estimate forwarded", f["log_marginal_estimate"], ("attr", PARTS, "log_marginal_estimate"))
+    ck.done()
+
+
+def smc_rejuvenate_rule(ctx, rule="ALG-smc"):
+    ev = smc_ev(ctx)
+    dotted = SMC + "rejuvenate"
+    s = summarize(ctx, ev, dotted)
+    lin = smc_lin(ev)
+    ck = Checker(ctx, ev, lin, rule, "smc.rejuvenate", func_loc(ctx, dotted))
+    K = ("param", "mcmc_kernel")
+    f = pc_fields(ev, s.ret)
+    if f is None:
+        raise AnalysisError("smc.rejuvenate: result is not a ParticleCollection construction")
+    tb, wb = lanes_body(f["traces"]), lanes_body(f["log_weights"])
+    w_in = ("attr", PARTS, "log_weights")
+    if tb is None:
+        raise AnalysisError("smc.rejuvenate: vectorised move not recognised")
+    vid = f["traces"][1]
+    rec = ev.vmaps[vid]
+    vmap_axes_ok(ck, ev, rec, ("attr", ("attr", PARTS, "n_samples"), "value"), ("tuple", (C(0), C(0))) if len(rec["args"]) == 2 else ("tuple", (C(0),)), "rejuvenate")
+    otr = ("lane", vid, ("attr", PARTS, "traces"), C(0))
+    ck.eq("trace = kernel(old trace), particle by particle", tb, ("call", K, (otr,), ()))
+    if wb is not None:
+        ck.eq("weights untouched by the kernel", wb, ("lane", vid, w_in, C(0)))
+    else:
+        ck.eq("weights untouched by the kernel", f["log_weights"], w_in)
+    ck.eq("particle count forwarded", f["n_samples"], ("attr", PARTS, "n_samples"))
+    ck.eq("accumulated estimate forwarded", f["log_marginal_estimate"], ("attr", PARTS, "log_marginal_estimate"))
+    ck.eq("diagnostic weights forwarded", f["diagnostic_weights"], ("attr", PARTS, "diagnostic_weights"))
+    ck.done()
+
+
+def smc_accessors_rule(ctx, rule="ALG-smc"):
+    ev = mk_ev(ctx, inline={SMC + "effective_sample_size"})
+    lin = mk_lin(ev)
+    S = ("param", "self")
+    lw = ("attr", S, "log_weights")
+    n = ("attr", ("attr", S, "n_samples"), "value")
+    dotted = SMC + "ParticleCollection.log_marginal_likelihood"
+    s = summarize(ctx, ev, dotted)
+    ck = Checker(ctx, ev, lin, rule, "smc.ParticleCollection.log_marginal_likelihood", func_loc(ctx, dotted))
+    ck.lineq("estimate = accumulated + logsumexp(weights) − log N", s.ret,
+             ("binop", "+", ("attr", S, "log_marginal_estimate"), ("binop", "-", lse(lw), call(N("jax.numpy.log"), n))))
+    ck.done()
+    dotted = SMC + "effective_sample_size"
+    s = summarize(ctx, ev, dotted)
+    ck = Checker(ctx, ev, Lin_nosum(ev), rule, "smc.effective_sample_size", func_loc(ctx, dotted))
+    W = ("param", "log_weights")
+    wn = call(N("jax.numpy.exp"), ("binop", "-", W, lse(W)))
+    ck.lineq("ESS = 1 / Σ (normalised weight)²", s.ret, ("binop", "/", C(1.0), call(N("jax.numpy.sum"), ("binop", "**", wn, C(2)))))
+    ck.done()
+
+
+def Lin_nosum(ev):
+    from ..linform import Lin
+    return Lin(ev, axioms=[std_axioms], sum_transparent=False)
+
+
+def smc_resample_rule(ctx, rule="ALG-resample"):
+    ev = smc_ev(ctx)
+    dotted = SMC + "resample"
+    s = summarize(ctx, ev, dotted)
+    lin = smc_lin(ev)
+    ck = Checker(ctx, ev, lin, rule, "smc.resample", func_loc(ctx, dotted))
+    f = pc_fields(ev, s.ret)
+    if f is None:
+        raise AnalysisError("smc.resample: result is not a ParticleCollection construction")
+    w = ("attr", PARTS, "log_weights")
+    n = ("attr", ("attr", PARTS, "n_samples"), "value")
+    want_tr = ("call", N(SMC + "resample_vectorized_trace"), (("attr", PARTS, "traces"), w, n), (("method", ("param", "method")),))
+    ck.eq("traces = resample_vectorized_trace(traces, log_weights, N, method)", f["traces"], want_tr)
+    z = lin.norm(f["log_weights"])
+    if z != call(N("jax.numpy.zeros"), n):
+        ck.fail("weights reset to zeros(N)", f"found {short(z, ev)}")
+    ck.lineq("estimate' = estimate + logsumexp(w) − log N", f["log_marginal_estimate"],
+             ("binop", "+", ("attr", PARTS, "log_marginal_estimate"), ("binop", "-", lse(w), call(N("jax.numpy.log"), n))))
+    ck.lineq("diagnostic weights = pre-resampling normalised weights", f["diagnostic_weights"], ("binop", "-", w, lse(w)))
+    ck.eq("particle count forwarded", f["n_samples"], ("attr", PARTS, "n_samples"))
+    # invariance of log_marginal_likelihood(): with the axiom logsumexp(zeros(N)) = log N
+    def ax(x):
+        if is_call(x, name="jax.scipy.special.logsumexp") and len(x[2]) == 1 and is_call(x[2][0], name="jax.numpy.zeros") and x[2][0][2] == (n,):
+            return call(N("jax.numpy.log"), n)
+        return None
+    lin2 = mk_lin(ev, extra=[ax])
+    after = ("binop", "+", f["log_marginal_estimate"], ("binop", "-", lse(f["log_weights"]), call(N("jax.numpy.log"), lin.norm(("attr", f["n_samples"], "value")))))
+    before = ("binop", "+", ("attr", PARTS, "log_marginal_estimate"), ("binop", "-", lse(w), call(N("jax.numpy.log"), n)))
+    ok, res = lin2.equal(after, before)
+    if not ok:
+        ck.fail("log_marginal_likelihood() unchanged by resampling (axiom logsumexp(zeros(N)) = log N)", f"residual {fmt_lf(res[1])}")
+    ck.done()
+
+
+def systematic_rule(ctx, rule="ALG-systematic"):
+    ev = mk_ev(ctx)
+    dotted = SMC + "systematic_resample"
+    s = summarize(ctx, ev, dotted)
+    lin = Lin_nosum(ev)
+    ck = Checker(ctx, ev, lin, rule, "smc.systematic_resample", func_loc(ctx, dotted))
+    W, NS = ("param", "log_weights"), ("param", "n_samples")
+    r = s.ret
+    if not (is_call(r, name="jax.numpy.searchsorted") and len(r[2]) == 2):
+        ck.fail("indices = searchsorted(cumulative weights, positions)", f"found {short(r, ev)}")
+        ck.done()
+        return
+    cum, pos = r[2]
+    side = ev.kwget(r[3], "side")
+    if side not in (None, C("left")):
+        ctx.observe(rule, "smc.systematic_resample", f"searchsorted side={short(side, ev)}")
+    ck.eq("searched array = cumsum(exp(w − logsumexp(w)))", cum, call(N("jax.numpy.cumsum"), call(N("jax.numpy.exp"), ("binop", "-", W, lse(W)))))
+    us = [x for x in subterms(pos) if is_call(x, name=DIST + "uniform.sample")]
+    if len(set(us)) != 1 or us[0] != call(N(DIST + "uniform.sample"), C(0.0), C(1.0)):
+        ck.fail("one scalar offset u ~ uniform(0, 1) shared by all positions", f"found {[short(u, ev) for u in set(us)]}")
+    else:
+        ck.lineq("positions = (arange(N) + u) / N", pos, ("binop", "/", ("binop", "+", call(N("jax.numpy.arange"), NS), us[0]), NS))
+    n_u = sum(1 for e in s.events if e[1] == "call" and e[2][1] == N(DIST + "uniform.sample"))
+    if n_u != 1:
+        ck.fail("offset drawn once", f"{n_u} uniform draws")
+    ck.done()
+
+
+def rejuvenation_smc_rule(ctx, rule="ROLE-rejuvenation_smc"):
+    kind, node, mod, owner = ctx.p.get_function(SMC + "rejuvenation_smc")
+    ctx.fn(SMC + "rejuvenation_smc")
+    construct = "smc.rejuvenation_smc"
+    failed = False
+
+    def bad(key, what, n=node):
+        nonlocal failed
+        failed = True
+        ctx.bad(rule, construct, key, what, ctx.loc(mod, n))
+
+    src = {type(n).__name__ for n in ast.walk(node)}
+    # resampling inside lax.cond on ess < N // 2 with identity else-branch (2 sites)
+    conds = [c for c in ast.walk(node) if isinstance(c, ast.Call) and ast.unparse(c.func) == "jax.lax.cond"]
+    if len(conds) < 2:
+        bad("ESS-triggered resampling at init and at every step", f"{len(conds)} lax.cond sites")
+    for c in conds:
+        a = [ast.unparse(x) for x in c.args]
+        if len(a) != 4 or a[0].replace(" ", "") != "ess<n_particles.value//2" or a[1] != "lambda p: resample(p)" or a[2] != "lambda p: p" or a[3] != "particles":
+            bad("cond(ess < N // 2, resample, identity, particles)", f"found cond({', '.join(a)})", c)
+    # smc_step: extend consumes the particles' own retvals; carry = post-rejuvenation particles
+    steps = [f for f in ast.walk(node) if isinstance(f, ast.FunctionDef) and f.name == "smc_step"]
+    if len(steps) != 1:
+        raise AnalysisError(f"{construct}: smc_step not found")
+    st = steps[0]
+    body_src = ast.unparse(st)
+    ext = [c for c in ast.walk(st) if isinstance(c, ast.Call) and ast.unparse(c.func) == "extend"]
+    if len(ext) != 1:
+        bad("one extend per observation", f"{len(ext)} extend calls", st)
+    else:
+        a = [ast.unparse(x) for x in ext[0].args]
+        kw = {k.arg: ast.unparse(k.value) for k in ext[0].keywords}
+        prov = {ast.unparse(x.targets[0]): ast.unparse(x.value) for x in ast.walk(st) if isinstance(x, ast.Assign) and len(x.targets) == 1}
+        if a[:2] != ["particles", "model"] or prov.get(a[2] if len(a) > 2 else "") != "particles.traces.get_retval()" or (a[3] if len(a) > 3 else "") != st.args.args[1].arg \
+                or kw.get("extension_proposal") != "transition_proposal":
+            bad("extend(particles, model, particles' own retvals, this observation, proposal)", f"found extend({', '.join(a)}, {kw})", ext[0])
+    rets = [r for r in ast.walk(st) if isinstance(r, ast.Return) and r.value is not None and isinstance(r.value, ast.Tuple)]
+    outer = [r for r in rets if ast.unparse(r.value) == "(particles, particles)"]
+    if not outer:
+        bad("smc_step returns (post-move particles, post-move particles)", f"found {[ast.unparse(r.value) for r in rets]}", st)
+    # order inside smc_step: extend < cond < rejuvenation scan < return
+    order = []
+    for x in st.body:
+        s_ = ast.unparse(x)
+        if "extend(" in s_:
+            order.append("extend")
+        elif "jax.lax.cond(" in s_:
+            order.append("resample")
+        elif "rejuvenate(" in s_:
+            order.append("rejuvenate")
+    if order[:2] != ["extend", "resample"] or (len(order) > 2 and order[2] != "rejuvenate"):
+        bad("extend, then ESS-triggered resample, then rejuvenation", f"order {order}", st)
+    scans = [c for c in ast.walk(node) if isinstance(c, ast.Call) and ast.unparse(c.func) == "jax.lax.scan" and c.args and ast.unparse(c.args[0]) == "smc_step"]
+    if len(scans) != 1 or [ast.unparse(x) for x in scans[0].args[1:]] != ["particles", "remaining_obs"]:
+        bad("scan(smc_step, initial particles, remaining observations)", f"found {[ast.unparse(s) for s in scans]}")
+    asg = {ast.unparse(x.targets[0]): ast.unparse(x.value) for x in node.body if isinstance(x, ast.Assign) and len(x.targets) == 1}
+    if asg.get("first_obs") != "jtu.tree_map(lambda x: x[0], observations)" or asg.get("remaining_obs") != "jtu.tree_map(lambda x: x[1:], observations)":
+        bad("first observation initialises, the rest are scanned", f"first_obs={asg.get('first_obs')}, remaining_obs={asg.get('remaining_obs')}")
+    inits = [c for c in ast.walk(node) if isinstance(c, ast.Call) and ast.unparse(c.func) == "init"]
+    if len(inits) != 1 or [ast.unparse(x) for x in inits[0].args] != ["model", "initial_model_args", "n_particles", "first_obs"]:
+        bad("init(model, initial args, N, first observation)", f"found {[ast.unparse(c) for c in inits]}")
+    rj = [c for c in ast.walk(node) if isinstance(c, ast.Call) and ast.unparse(c.func) == "rejuvenate"]
+    for c in rj:
+        if [ast.unparse(x) for x in c.args] != ["particles", "mcmc_kernel.value"]:
+            bad("rejuvenate(particles, kernel)", f"found {ast.unparse(c)}", c)
+    if not failed:
+        ctx.ok(rule, construct, f"{len(conds)} ESS-triggered resampling sites; extend←retvals; carry = post-move particles")
+
+
+# ====================================================================== VI (C17)
+def elbo_rule(ctx, rule="ALG-elbo"):
+    ev = mk_ev(ctx)
+    dotted = VI + "elbo_factory"
+    s = summarize(ctx, ev, dotted)
+    lin = mk_lin(ev)
+    ck = Checker(ctx, ev, lin, rule, "vi.elbo_factory.elbo", func_loc(ctx, dotted))
+    r = s.ret
+    if not (is_call(r, name="genjax.adev.expectation") and len(r[2]) == 1 and r[2][0][0] == "closure"):
+        ck.fail("objective wrapped by @expectation", f"found {short(r, ev)}")
+        ck.done()
+        return
+    VP = ("param", "variational_params")
+    body = ev.apply_closure(r[2][0], (("star", VP),), ())
+    G, Q, CON, TA = (("param", n) for n in ("target_gf", "variational_family", "constraint", "target_args"))
+    tr = ("call", ("attr", Q, "simulate"), (CON, ("star", VP)), ())
+    merged = ("idx", ("call", ("attr", G, "merge"), (CON, CH(tr)), ()), C(0))
+    p = ("idx", ("call", ("attr", G, "assess"), (merged, ("star", TA)), ()), C(0))
+    ck.lineq("elbo = log p(merge(constraint, q choices)) + q score (= log p − log q)", body, ("binop", "+", p, SC(tr)))
+    n_sim = sum(1 for x in set(subterms(lin.norm(body))) if is_call(x) and x[1] == ("attr", Q, "simulate"))
+    if n_sim != 1:
+        ck.fail("one draw from q per evaluation (score and choices from the same trace)", f"{n_sim} distinct simulate terms")
+    ck.done()
+    ctx.sample({"rule": rule, "construct": "vi.elbo_factory.elbo", "objective": short(lin.norm(body), ev, 300)})
+
+
+def optimize_rule(ctx, rule="ALG-vi-ascent"):
+    ev = mk_ev(ctx)
+    dotted = VI + "optimize_vi"
+    s = summarize(ctx, ev, dotted)
+    lin = mk_lin(ev)
+    ck = Checker(ctx, ev, lin, rule, "vi.optimize_vi", func_loc(ctx, dotted))
+    E, IP, LR, NI, TH = (("param", n) for n in ("elbo_fn", "init_params", "learning_rate", "n_iterations", "track_history"))
+    if len(ev.scans) != 1:
+        raise AnalysisError("vi.optimize_vi: expected one scan")
+    sid, rec = next(iter(ev.scans.items()))
+    ck.eq("scan starts from the initial parameters", rec["init"], IP)
+    if rec["xs"] != call(N("jax.numpy.arange"), NI) and ev.kwget(rec["kwargs"], "length") != NI:
+        ck.fail("n_iterations iterations", f"scan over {short(rec['xs'], ev)}")
+    carry = ("scan_carry", sid, None)
+    new = ("binop", "+", carry, ("binop", "*", LR, ("call", ("attr", E, "grad_estimate"), (carry,), ())))
+    for asg, leaf in all_cases(rec["carry_out"]):
+        ck.lineq("params' = params + learning_rate · grad_estimate(params) (ascent)", leaf, new)
+    for asg, leaf in all_cases(rec["ys"]):
+        track = None
+        for c, v in asg.items():
+            if c == TH:
+                track = v
+        if track:
+            it = items(leaf)
+            if it is None or len(it) != 2:
+                ck.fail("tracked output = (new params, loss)", f"found {short(leaf, ev)}")
+            else:
+                ck.lineq("history records the post-step iterate", it[0], new)
+    for asg, leaf in all_cases(s.ret):
+        info = ev.ctor_info(leaf)
+        if info is None or not info[0].endswith("VariationalApproximation"):
+            ck.fail("returns a VariationalApproximation", f"found {short(leaf, ev, 200)}")
+            continue
+        ck.eq("final_params = the scan's final carry", ev.ctor_field(leaf, "final_params"), ("scan_final", sid))
+        track = asg.get(TH)
+        if track:
+            ph = lin.norm(ev.ctor_field(leaf, "param_history"))
+            ok = ph[0] == "stack" or (ph[0] == "idx" and is_const(ph[2], 0))
+            if not ok:
+                ck.fail("param_history = every iterate, stacked", f"found {short(ph, ev, 200)}")
+        ck.eq("n_iterations recorded", ev.ctor_field(leaf, "n_iterations"), call(N(CORE + "const"), NI))
+    ck.done()
+
+
+def families_rule(ctx, rule="ROLE-vi-family"):
+    ev = mk_ev(ctx)
+    lin = mk_lin(ev)
+    for fam in ("mean_field_normal_family", "full_covariance_normal_family"):
+        dotted = VI + fam
+        s = summarize(ctx, ev, dotted)
+        ck = Checker(ctx, ev, lin, rule, f"vi.{fam}", func_loc(ctx, dotted))
+        GE = ("param", "gradient_estimator")
+        n = 0
+        for asg, leaf in all_cases(s.ret):
+            est = None
+            for c, v in asg.items():
+                if c[0] == "cmp" and c[1] == "==" and c[2] == GE and v:
+                    est = c[3][1] if est is None else "conflict"
+            if est in (None, "conflict"):
+                if est is None and leaf[0] != "raise":
+                    ck.fail("unknown estimator raises", f"found {short(leaf, ev, 120)}")
+                continue
+            if not (is_call(leaf, name=CORE + "gen") and leaf[2] and leaf[2][0][0] == "closure"):
+                ck.fail("returns a @gen variational family", f"found {short(leaf, ev, 200)}")
+                continue
+            P = ("param", "params")
+            body = ev.apply_closure(leaf[2][0], (("param", "constraint"), P), ())
+            mv = {"reparam": "genjax.adev.multivariate_normal_reparam", "reinforce": "genjax.adev.multivariate_normal_reinforce"}.get(est)
+            n += 1
+            if not (body[0] == "binop" and body[1] == "@" and is_call(body[2]) and body[3] == C("x")):
+                ck.fail("family samples one addressed multivariate normal", f"found {short(body, ev, 200)}")
+                continue
+            d = body[2]
+            # follow the local alias mvnormal_fn -> the resolved estimator
+            fnm = d[1]
+            if fnm[0] == "ifexp":
+                from .util import resolve_deep
+                fnm = resolve_deep(fnm, asg)
+            ck.eq(f"[{est}] estimator primitive", fnm, N(mv))
+            if len(d[2]) != 2:
+                ck.fail("mvnormal(mean, covariance)", f"found {short(d, ev)}")
+                continue
+            mean, cov = d[2]
+            ND = ("param", "n_dims")
+            if fam.startswith("mean_field"):
+                ck.eq("mean = params[:n_dims]", mean, ("idx", P, ("slice", NONE, ND, NONE)))
+                std = call(N("jax.numpy.exp"), ("idx", P, ("slice", ND, NONE, NONE)))
+                ck.eq("covariance = diag(exp(log_std)²)", cov, call(N("jax.numpy.diag"), ("binop", "**", std, C(2))))
+            else:
+                ck.eq("mean = params['mean']", mean, ("idx", P, C("mean")))
+                ch = ("idx", P, C("chol_cov"))
+                ck.eq("covariance = L Lᵀ", cov, ("binop", "@", ch, ("attr", ch, "T")))
+        if n < 2:
+            ck.fail("both estimators analysed", f"{n}")
+        ck.done()
+
+
+def elbo_vi_rule(ctx, rule="ROLE-elbo_vi"):
+    ev = mk_ev(ctx)
+    dotted = VI + "elbo_vi"
+    s = summarize(ctx, ev, dotted)
+    P = lambda n: ("param", n)
+    want = ("call", N(VI + "optimize_vi"), (), (("elbo_fn", call(N(VI + "elbo_factory"), P("target_gf"), P("variational_family"), P("constraint"), P("target_args"))),
+                                                   ("init_params", P("init_params")), ("learning_rate", P("learning_rate")),
+                                                   ("n_iterations", P("n_iterations")), ("track_history", P("track_history"))))
+    if s.ret == want:
+        ctx.ok(rule, "vi.elbo_vi")
+    else:
+        ctx.bad(rule, "vi.elbo_vi", "pipeline wiring", f"expected optimize_vi(elbo_factory(target, family, constraint, target_args), ...), found {short(s.ret, ev, 300)}", func_loc(ctx, dotted))
